@@ -517,6 +517,8 @@ pub struct Case<'a> {
     pub sh: Rc<Shared>,
     pub cfg: CaseCfg,
     pub running: Vec<bool>,
+    /// index of this case within its family (for exhaustive enumerations)
+    pub idx: usize,
 }
 
 fn ipnum(ip: IpAddr) -> u128 {
@@ -576,7 +578,7 @@ impl<'a> Case<'a> {
         }
         let _ = turmoil::verif::drain_decisions();
         let _ = turmoil::verif::drain_turns();
-        Case { sim, sh, running: vec![true; cfg.hosts], cfg }
+        Case { sim, sh, running: vec![true; cfg.hosts], cfg, idx: 0 }
     }
 
     /// Execute one controller line.
@@ -694,6 +696,7 @@ impl<'a> Case<'a> {
             }
             "setfail" => { self.sim.set_fail_rate(t[1].parse().unwrap()); "ok".into() }
             "setlinkfail" => { self.sim.set_link_fail_rate(ip(t[1]), ip(t[2]), t[3].parse().unwrap()); "ok".into() }
+            "mark" => "ok".into(),
             "simclock" => format!(
                 "ok elapsed={} epoch={}",
                 self.sim.elapsed().as_nanos(),
